@@ -333,7 +333,8 @@ func (m *Mux) fetch(pattern string, mount *node) (*node, []pathParam) {
 		}
 
 		if t[0] == pmark || t[0] == pwild {
-			if lt == 1 {
+			// A placeholder ($) requires a name; an anonymous placeholder (*) has none
+			if lt == 1 && t[0] == pmark {
 				panic(invalidPattern)
 			}
 			if t[0] == pmark {
